@@ -24,6 +24,18 @@ Runtime side (the tie):
       include profile-shaped ones whose garbage alone reaches the default threshold); a panic / crash anywhere is a violation; and
       the documented mechanism is asserted directly: under a heap-profile mode no collection is performed at all (the profilers
       keep their call records as unreachable heap values - requirement 1 above possible_gc).
+ (iv) size classes: big containers (lists of 1000..5000 elements built by append / extend / += / comprehension so that spare
+      capacity exists, lists of heap values, dicts, sets, tuples, strings; sizes straddle 16/32 (SmallMap index), powers of two,
+      1024, 2048, 4096) are collected while reachable and then MUTATED further (append / extend / insert / pop / setitem, dict and
+      set insert / delete) and fully read back (length, position-weighted checksum compared with the value computed on a Python
+      list, equality with a freshly built equal container, neighbours allocated before / after) under all schedules with poisoning;
+      a heap corruption kills the child process: the program is named by the case-by-case re-run and reported as `crash`;
+ (v)  roots reachable only through host APIs: natives intern(s) = Heap::alloc_str_intern, same(a, b) = Value::ptr_eq,
+      set_extra / get_extra = Module::set_extra_value / extra_value (harness globals_with_host_api); programs intern the same and
+      different texts before / after collections, use them as dict keys, drop and re-intern them, under all schedules, on a module
+      without (the default) and with an embedder extra_value; the translator additionally extracts the ordered `.trace*(tracer)`
+      calls of Module::trace / Evaluator::trace with "unconditional" flags and the list of value-holding tables (fields of Module,
+      Evaluator and OwnedHeap): C03_roots_complete_extracted.
 """
 import concurrent.futures
 import importlib.util
@@ -43,6 +55,7 @@ TRUSTED = [
     "tools/extract_items/trace.py (syntactic, best-effort table of value-bearing fields declared vs fields visited by Trace impls)",
     "cfg(starlark_verif) hooks in /repo: set_gc_every (forces a collection at every k-th safepoint), set_poison (old arena := 0xDB before release)",
     "harness bins eval and gc (graph walk through ListRef/DictRef/TupleRef/dir_attr+get_attr with Value::ptr_eq)",
+    "harness natives intern / same / set_extra / get_extra (globals_with_host_api) as the embedder's use of Heap::alloc_str_intern / extra_value",
 ]
 ASSUMPTIONS = [
     "memory safety proper (reads of freed memory, arena layout, pointer tagging, unsafe casts) cannot be exhibited by the Coq model; it is "
@@ -451,6 +464,356 @@ def targeted_programs():
 
 
 # ---------------------------------------------------------------------------------------------------------------
+# size classes: big containers that are collected while reachable and then MUTATED further and fully read back
+#
+# The collector copies a container's backing store into the new arena with its own idea of length / capacity (AValueArray::
+# heap_copy drops the spare capacity, SmallMap keeps entries + index, strings are copied by length): a copy that advertises more
+# room than it reserved is only observable when the container is used again AFTER the collection (append/extend without
+# reallocation, insert into the index, ...).  Sizes straddle the thresholds found in the sources: SmallMap NO_INDEX_THRESHOLD
+# (16 / 32), the list growth policy (max(len + n, 2 * len), minimum 4: powers of two), 1024-element / 4096-byte / 8 KiB-class
+# boundaries of the bump allocator's chunks, and sizes in between up to 5000.
+
+BIG_SIZES = [1000, 1023, 1024, 1025, 1100, 1500, 2000, 2047, 2048, 2049, 2500, 3000, 4095, 4096, 4097, 5000]
+SMALL_SIZES = [3, 4, 5, 15, 16, 17, 31, 32, 33, 34, 63, 64, 65, 127, 128, 129, 255, 256, 257, 511, 512, 513]
+SAFEPOINT_STMTS = ["sp = None", "sp = [1, 2, 3]", "sp = {\"k\": (1, 2)}", "sp = \"s\" + str(5)", "sp = (sp, 1)", "sp = len(str(sp))"]
+DEFAULT_THRESHOLD_GARBAGE = "pad = []\nfor i in range(20000):\n    pad.append(i)\npad = None"
+
+
+def gen_big_program(rng):
+    """-> dict(src, stats, id).  One big list (ints, with the expected checksum computed here by the same operations on a Python
+    list = the specification's answer), neighbours allocated before/after it, optionally further big containers (list of heap
+    values, dict, set, tuple, string); statements that are only safepoints; mutations; full read-back."""
+    seed = rng.getrandbits(48)
+    r = random.Random(seed)
+    stats = {"big_program": 1}
+
+    def note(k):
+        stats["big." + k] = stats.get("big." + k, 0) + 1
+
+    n = r.choice(BIG_SIZES) if r.random() < 0.8 else r.choice(SMALL_SIZES)
+    if r.random() < 0.2:
+        n = r.randrange(1000, 5001)
+    lines = ["before = [10, 20, \"b\" + str(30)]"]
+    # ---- build (most ways leave spare capacity behind)
+    how = r.randrange(7)
+    if how == 0:
+        lines.append("L = []\nfor i in range(%d):\n    L.append(i)" % n)
+        py = list(range(n))
+        note("build_append_loop")
+    elif how == 1:
+        lines.append("L = list(range(%d))" % n)
+        lines.append("L.append(-1)")
+        py = list(range(n)) + [-1]
+        note("build_range_then_append")
+    elif how == 2:
+        lines.append("L = [i * 3 for i in range(%d)]" % n)
+        lines.append("L += [7, 8]")
+        py = [i * 3 for i in range(n)] + [7, 8]
+        note("build_comprehension_then_iadd")
+    elif how == 3:
+        lines.append("L = list(range(%d))" % (n // 2))
+        lines.append("L.extend(range(%d, %d))" % (n // 2, n))
+        lines.append("L.extend([5])")
+        py = list(range(n)) + [5]
+        note("build_extend")
+    elif how == 4:
+        lines.append("L = [0] * %d" % n)
+        lines.append("L.append(1)")
+        py = [0] * n + [1]
+        note("build_repeat_then_append")
+    elif how == 5:
+        lines.append("def build(n):\n    l = []\n    for i in range(n):\n        l.append(i + 2)\n    return l")
+        lines.append("L = build(%d)" % n)
+        py = [i + 2 for i in range(n)]
+        note("build_in_function")
+    else:
+        lines.append("L = list(range(%d))" % n)
+        lines.append("L.insert(%d, -7)" % (n // 3))
+        py = list(range(n))
+        py.insert(n // 3, -7)
+        note("build_range_then_insert")
+    lines.append("after = {\"k\": [1, 2, 3], \"s\": \"a\" + str(4)}")
+    # ---- further big containers
+    m = r.choice(BIG_SIZES + SMALL_SIZES)
+    others = []
+    for kind in r.sample(["strlist", "dict", "set", "tuple", "string", "nested", "strdict"], r.randrange(1, 4)):
+        others.append(kind)
+        note("other_" + kind)
+        if kind == "strlist":
+            lines.append("SL = []\nfor i in range(%d):\n    SL.append(\"e\" + str(i))" % m)
+        elif kind == "dict":
+            lines.append("D = {}\nfor i in range(%d):\n    D[i] = i * 2" % m)
+        elif kind == "strdict":
+            lines.append("SD = {\"k\" + str(i): [i] for i in range(%d)}" % m)
+        elif kind == "set":
+            lines.append("S = set(range(%d))" % m)
+            lines.append("S.add(-1)")
+        elif kind == "tuple":
+            lines.append("T = tuple(range(%d))" % m)
+        elif kind == "string":
+            lines.append("Z = \"ab\" * %d + str(%d)" % (m, m))
+        else:
+            lines.append("LL = [[i] for i in range(%d)]" % m)
+            lines.append("LL.append([-1])")
+
+    def safepoints():
+        for _ in range(r.randrange(1, 6)):
+            lines.append(r.choice(SAFEPOINT_STMTS))
+        if r.random() < 0.3:
+            lines.append(DEFAULT_THRESHOLD_GARBAGE)     # the evaluator's own threshold collects at the next statement
+            note("default_threshold_garbage")
+        if r.random() < 0.5:
+            lines.append("emit(len(L))")
+
+    lines.append("sp = 0")
+    safepoints()
+    lines.append("emit(L == %s)" % {0: "list(range(%d))" % n, 1: "list(range(%d)) + [-1]" % n, 2: "[i * 3 for i in range(%d)] + [7, 8]" % n,
+                                   3: "list(range(%d)) + [5]" % n, 4: "[0] * %d + [1]" % n, 5: "[i + 2 for i in range(%d)]" % n,
+                                   6: "list(range(%d)) + [-7] + list(range(%d, %d))" % (n // 3, n // 3, n)}[how])
+    # ---- mutations after the collection(s)
+    for _ in range(r.randrange(2, 7)):
+        op = r.randrange(12)
+        a = r.choice([1, 2, 3, 7, 50, 300, max(1, len(py) // 2), len(py)])
+        if op <= 2:
+            lines.append("for i in range(%d):\n    L.append(i + 1)" % a)
+            py.extend(i + 1 for i in range(a))
+            note("mut_append_loop")
+        elif op == 3:
+            lines.append("L.append(%d)" % a)
+            py.append(a)
+            note("mut_append")
+        elif op == 4:
+            lines.append("L.extend(range(%d))" % a)
+            py.extend(range(a))
+            note("mut_extend_range")
+        elif op == 5:
+            lines.append("L.extend([i * 2 for i in range(%d)])" % a)
+            py.extend(i * 2 for i in range(a))
+            note("mut_extend_list")
+        elif op == 6:
+            lines.append("L += list(range(%d))" % a)
+            py += list(range(a))
+            note("mut_iadd")
+        elif op == 7 and py:
+            k = r.randrange(len(py))
+            lines.append("L.insert(%d, -5)" % k)
+            py.insert(k, -5)
+            note("mut_insert")
+        elif op == 8 and py:
+            if r.random() < 0.5:
+                lines.append("emit(L.pop())")
+                py.pop()
+            else:
+                k = r.randrange(len(py))
+                lines.append("emit(L.pop(%d))" % k)
+                py.pop(k)
+            note("mut_pop")
+        elif op == 9 and py:
+            k = r.randrange(len(py))
+            lines.append("L[%d] = 9" % k)
+            py[k] = 9
+            note("mut_setitem")
+        elif op == 10 and py:
+            lines.append("L.append(L[0])\nL.append(len(L))")
+            py.append(py[0])
+            py.append(len(py))
+            note("mut_append_own_element")
+        else:
+            lines.append("L2 = L[:]\nL2.append(4)\nemit(len(L2))\nL2 = None")
+            note("mut_copy_then_append")
+        if "strlist" in others and r.random() < 0.5:
+            lines.append("for i in range(%d):\n    SL.append(\"late\" + str(i))" % a)
+        if "dict" in others and r.random() < 0.5:
+            lines.append(r.choice(["D[%d] = \"new\"" % (m + a), "D.pop(%d, None)" % (a % max(m, 1)), "D.update({%d: [1], -1: 2})" % (m + 7),
+                                   "for i in range(%d):\n    D[-2 - i] = i" % min(a, 300)]))
+        if "strdict" in others and r.random() < 0.5:
+            lines.append(r.choice(["SD[\"late\" + str(%d)] = [0]" % a, "SD.pop(\"k\" + str(%d), None)" % (a % max(m, 1)),
+                                   "SD[\"k\" + str(%d)].append(\"x\")" % (a % max(m, 1)) if m else "SD[\"z\"] = 1"]))
+        if "set" in others and r.random() < 0.5:
+            lines.append(r.choice(["S.add(%d)" % (m + a), "S.discard(%d)" % (a % max(m, 1)), "S.update([%d, %d])" % (m + 1, m + 2)]))
+        if "nested" in others and r.random() < 0.5:
+            lines.append("LL[%d].append(\"in\" + str(%d))\nLL.append([%d])" % (a % (m + 1), a, a))
+        if "tuple" in others and r.random() < 0.3:
+            lines.append("T = T + (%d, \"t\" + str(%d))" % (a, a))
+        if "string" in others and r.random() < 0.3:
+            lines.append("Z = Z + \"z\" * %d" % (a % 40))
+        if r.random() < 0.6:
+            safepoints()
+    # ---- read-back
+    exp_len, exp_sum = len(py), sum((i + 1) * v for i, v in enumerate(py))
+    lines.append("emit(len(L))")
+    lines.append("tot = 0\nfor i, v in enumerate(L):\n    tot += (i + 1) * v")
+    lines.append("emit(tot)")
+    lines.append("emit([\"spec\", len(L) == %d, tot == %d])" % (exp_len, exp_sum))
+    lines.append("emit(L[:3] + L[-3:])")
+    lines.append("emit(L == [v for v in L] and [v for v in L] == L)")
+    lines.append("emit([before, after])")
+    for kind in others:
+        if kind == "strlist":
+            lines.append("emit([len(SL), len(\",\".join(SL)), SL[:2], SL[-2:], SL[len(SL) // 2]])")
+        elif kind == "dict":
+            lines.append("dt = 0\nfor k, v in D.items():\n    dt += k * 7 + (v if type(v) == \"int\" else 1)")
+            lines.append("emit([len(D), dt, D.get(0), D.get(%d), list(D.keys())[-3:]])" % (m - 1))
+        elif kind == "strdict":
+            lines.append("emit([len(SD), SD.get(\"k0\"), SD.get(\"k\" + str(%d)), len(\"\".join(SD.keys())), list(SD.items())[-2:]])" % (m - 1))
+            lines.append("emit(all([(\"k\" + str(i)) in SD or i < 400 for i in range(400, %d)]))" % m)
+        elif kind == "set":
+            lines.append("st = 0\nfor v in S:\n    st += v")
+            lines.append("emit([len(S), st, -1 in S, %d in S, sorted(S)[:3]])" % (m - 1))
+        elif kind == "tuple":
+            lines.append("tt = 0\nfor v in T:\n    tt += (v if type(v) == \"int\" else 1)")
+            lines.append("emit([len(T), tt, T[-2:], T[:%d] == tuple(range(%d))])" % (m, m))
+        elif kind == "string":
+            lines.append("emit([len(Z), Z.count(\"a\"), Z[%d:%d], Z[-5:], Z.startswith(\"ab\" * %d)])" % (m, m + 6, m))
+        else:
+            lines.append("emit([len(LL), len([y for x in LL for y in x]), LL[0], LL[-1], LL[len(LL) // 2]])")
+    return {"id": "b%d" % seed, "src": "\n".join(lines) + "\n", "stats": stats, "big": True}
+
+
+BIG_TEMPLATES = [
+    # hand-written: the shape of a build file that accumulates a big list across many top-level statements
+    ("big_list_append_after_gc",
+     "before = [10, 20, 30]\nbig = list(range(%N))\nbig.append(-1)\nafter = [40, 50, 60]\n" + DEFAULT_THRESHOLD_GARBAGE + "\nmid = [\"m\", \"i\", \"d\"]\n"
+     "for i in range(300):\n    big.append(i)\ntail = {\"k\": [1, 2, 3]}\ntotal = 0\nfor v in big:\n    total += v\n"
+     "emit([len(big), total, big[%N:%N + 3], before, after, mid, tail])\n"),
+    ("big_list_grown_statement_by_statement",
+     "acc = []\n" + "".join("acc.extend(range(%d, %d))\nemit(len(acc))\n" % (i * 700, (i + 1) * 700) for i in range(6)) +
+     "acc.append(\"end\")\nemit(acc[:4200] == list(range(4200)))\nemit(acc[-2:])\n"),
+    ("big_dict_grown_statement_by_statement",
+     "d = {}\n" + "".join("for i in range(%d, %d):\n    d[\"k\" + str(i)] = [i]\nemit(len(d))\n" % (i * 600, (i + 1) * 600) for i in range(5)) +
+     "d.pop(\"k7\")\nd[\"k7\"] = \"again\"\nemit([d[\"k0\"], d[\"k2999\"], d[\"k7\"], list(d.keys())[-1], len(d)])\n"),
+]
+
+
+def big_programs(ctx, n):
+    out = []
+    for name, tpl in BIG_TEMPLATES:
+        for size in ((1500, 1024) if "%N" in tpl else (0,)):
+            out.append({"id": "bt:%s:%d" % (name, size), "src": tpl.replace("%N", str(size)), "stats": {"big_template": 1}, "big": True})
+    return out + [gen_big_program(ctx.rng) for _ in range(n)]
+
+
+# ---------------------------------------------------------------------------------------------------------------
+# roots reachable only through host APIs: the heap's string interner (Heap::alloc_str_intern), Module::extra_value
+#
+# Programs run with the natives intern(s) / same(a, b) / set_extra(v) / get_extra() of the harness (globals_with_host_api) and
+# intern the same and different texts before and after collections: interned strings must keep their content, equal texts
+# must stay the same object / equal / hash-equal, dict lookups with them must work - under every schedule, with the embedder's
+# extra_value unset (the default) and set.
+
+INTERN_TEXTS = ['"ik%d"' % i for i in range(6)] + ['"an interned text that is longer than the others %d"' % i for i in range(2)] + \
+               ['("rt" + str(%d))' % i for i in range(5)] + ['""', '"a"', '"\\u00e9\\u2713 text"', '("x" * 300)']
+INTERN_PADS = ["_p = [str(i) * 3 for i in range(40)]", "_p = None", "_p = {str(i): [i] for i in range(20)}", "_p = \"pad\" + str(1)",
+               DEFAULT_THRESHOLD_GARBAGE]
+
+
+def gen_intern_program(rng):
+    seed = rng.getrandbits(48)
+    r = random.Random(seed)
+    stats = {"intern_program": 1}
+
+    def note(k):
+        stats["intern." + k] = stats.get("intern." + k, 0) + 1
+
+    lines = ["d = {}", "def via_def(t):\n    return intern(t)"]
+    held = {}          # var -> text expression
+    dict_keys = []
+    k = 0
+    many = None
+
+    def pads():
+        for _ in range(r.randrange(0, 4)):
+            lines.append(r.choice(INTERN_PADS[:4]) if r.random() < 0.9 else INTERN_PADS[4])
+
+    for _ in range(r.choice([6, 10, 16, 24])):
+        c = r.randrange(13)
+        if c <= 2 or not held:
+            k += 1
+            t = r.choice(INTERN_TEXTS)
+            lines.append(r.choice(["i%d = intern(%s)", "i%d = via_def(%s)"]) % (k, t))
+            held["i%d" % k] = t
+            note("intern")
+        elif c == 3:
+            v = r.choice(list(held))
+            lines.append("emit([same(%s, intern(%s)), %s == intern(%s), hash(%s) == hash(%s), %s])" % (v, held[v], v, held[v], v, held[v], v))
+            note("reintern_same_text")
+        elif c == 4:
+            v, w = r.choice(list(held)), r.choice(list(held))
+            lines.append("emit([same(%s, %s), %s == %s, %s + \"|\" + %s, len(%s)])" % (v, w, v, w, v, w, v))
+            note("compare_two")
+        elif c == 5:
+            t = r.choice(INTERN_TEXTS)
+            lines.append("d[intern(%s)] = %d" % (t, k))
+            dict_keys.append(t)
+            note("dict_key_interned")
+        elif c == 6 and dict_keys:
+            t = r.choice(dict_keys)
+            lines.append("emit([d[intern(%s)], d.get(%s), intern(%s) in d, repr(d)])" % (t, t, t))
+            note("dict_lookup")
+        elif c == 7:
+            v = r.choice(list(held))
+            t = held.pop(v)
+            lines.append("%s = None" % v)            # the interner still holds the string
+            pads()
+            k += 1
+            lines.append("i%d = intern(%s)" % (k, t))
+            lines.append("emit([i%d, i%d == %s, same(i%d, intern(%s))])" % (k, k, t, k, t))
+            held["i%d" % k] = t
+            note("drop_then_reintern")
+        elif c == 8 and many is None:
+            many = r.choice([10, 40, 200, 700])
+            lines.append("many = [intern(\"m\" + str(i)) for i in range(%d)]" % many)
+            note("many_interned")
+        elif c == 9 and many is not None:
+            lines.append("emit([all([same(many[i], intern(\"m\" + str(i))) for i in range(%d)]), many[0], many[-1], len(\"\".join(many))])" % many)
+            note("many_reinterned")
+        elif c == 10:
+            v = r.choice(list(held))
+            lines.append("emit([%s.upper(), %s[:5], %s * 2 == intern(%s) + %s, {%s: 1}.get(%s)])" % (v, v, v, held[v], v, v, held[v]))
+            note("use_content")
+        elif c == 11 and r.random() < 0.35:
+            v = r.choice(list(held))
+            lines.append("set_extra([%s, \"extra\" + str(%d), intern(\"only in extra %d\")])" % (v, k, k))
+            lines.append("emit(repr(get_extra()))")
+            note("set_extra_from_native")
+        else:
+            lines.append("emit(repr(get_extra()))")
+            note("get_extra")
+        pads()
+    for v in sorted(held):
+        lines.append("emit([%s, same(%s, intern(%s)), %s == %s])" % (v, v, held[v], v, held[v]))
+    for t in dict_keys[:6]:
+        lines.append("emit(d[intern(%s)])" % t)
+    lines.append("emit(repr(get_extra()))")
+    return {"id": "i%d" % seed, "src": "\n".join(lines) + "\n", "stats": stats}
+
+
+INTERN_TEMPLATES = [
+    ("intern_same_text_across_one_gc",
+     "a = intern(\"interned-key-0123456789\")\n" + DEFAULT_THRESHOLD_GARBAGE + "\nb = intern(\"interned-key-0123456789\")\n"
+     "emit([same(a, b), a == b, a + \"|\" + b, hash(a) == hash(b)])\n"),
+    ("intern_dict_key_across_gc",
+     "d = {intern(\"k\" + str(1)): 1, intern(\"k2\"): 2}\n_p = [str(i) for i in range(50)]\n_p = None\n"
+     "emit([d[intern(\"k1\")], d[\"k2\"], d.get(intern(\"k3\")), same(list(d.keys())[0], intern(\"k1\"))])\n"
+     "d[intern(\"k3\")] = 3\n_p = 1\nemit([repr(d), same(list(d.keys())[2], intern(\"k\" + str(3)))])\n"),
+    ("intern_dropped_then_again",
+     "a = intern(\"dropped \" + str(1))\na = None\n_p = [1]\n_p = None\nb = intern(\"dropped 1\")\n_p = 2\nc = intern(\"dropped 1\")\n"
+     "emit([b, c, same(b, c), b == \"dropped 1\"])\n"),
+]
+
+
+def intern_programs(ctx, n):
+    """every program twice: module without extra_value (the default) and with an embedder-set extra_value"""
+    base = [{"id": "it:%s" % name, "src": src, "stats": {"intern_template": 1}} for name, src in INTERN_TEMPLATES]
+    base += [gen_intern_program(ctx.rng) for _ in range(n)]
+    out = []
+    for p in base:
+        out.append(dict(p, opts={"host_api": True}))
+        out.append(dict(p, id=p["id"] + ":extra", opts={"host_api": True, "extra_value": "embedder extra value"}, stats={"intern_with_extra_value": 1}))
+    return out
+
+
+# ---------------------------------------------------------------------------------------------------------------
 # running
 
 def garbled(result):
@@ -461,12 +824,12 @@ def garbled(result):
     return ("\u00db\u00db" in s) or ("\ufffd\ufffd" in s) or ("\\udbdb" in json.dumps(result))
 
 
-def rerun_single(ctx, bin_name, cases, idxs):
+def rerun_single(ctx, bin_name, cases, idxs, timeout=120):
     """re-run the cases whose result is missing one per process -> {idx: (rc, result)}"""
     out = {}
 
     def one(i):
-        rc, log, res = sv.run_harness(ctx, bin_name, [cases[i]], tag="single%d" % i, timeout=120)
+        rc, log, res = sv.run_harness(ctx, bin_name, [cases[i]], tag="single%d" % i, timeout=timeout)
         return i, rc, res[0], log[-300:]
 
     with concurrent.futures.ThreadPoolExecutor(max_workers=sv.NPROC) as ex:
@@ -475,7 +838,7 @@ def rerun_single(ctx, bin_name, cases, idxs):
     return out
 
 
-def run_all(ctx, bin_name, cases, timeout=900):
+def run_all(ctx, bin_name, cases, timeout=900, single_timeout=120):
     """sharded run; results missing because a shard died are recovered: first by re-running the missing cases in many small
     shards, then case by case (one process each), which names the offending case(s).
     -> results (None where unknown), crashes {idx: (rc, log)} for the cases on which the process died when run alone"""
@@ -493,7 +856,7 @@ def run_all(ctx, bin_name, cases, timeout=900):
                 if r is not None:
                     res[i] = r
             missing = [i for i in missing if res[i] is None]
-        single = rerun_single(ctx, bin_name, cases, missing[:240])
+        single = rerun_single(ctx, bin_name, cases, missing[:240], timeout=single_timeout)
         for i, (rc1, r1, l1) in single.items():
             if r1 is None or rc1 != 0:
                 crashes[i] = (rc1, l1)
@@ -502,7 +865,7 @@ def run_all(ctx, bin_name, cases, timeout=900):
     return res, crashes
 
 
-def sched_differential(ctx, programs, extra_opts=None):
+def sched_differential(ctx, programs, extra_opts=None, timeout=900, single_timeout=120):
     cases, index = [], []
     for pi, p in enumerate(programs):
         for sname, sopts in SCHEDULES:
@@ -512,7 +875,7 @@ def sched_differential(ctx, programs, extra_opts=None):
             o.update(p.get("opts", {}))
             cases.append({"src": p["src"], "opts": o})
             index.append((pi, sname))
-    res, crashes = run_all(ctx, "eval", cases)
+    res, crashes = run_all(ctx, "eval", cases, timeout=timeout, single_timeout=single_timeout)
     failures = []
     st = {"programs": len(programs), "runs": len(cases), "agree": 0, "forced": 0, "safepoints": 0, "failing_outcomes": 0,
           "tr_items": 0, "default_threshold_collections_unknown": True, "forced_by_schedule": {}}
@@ -576,6 +939,14 @@ def sched_differential(ctx, programs, extra_opts=None):
                                                                                     sname, tb[k:k + 1], json.dumps(b[0][1])[:200]),
                                  "replay": {"src": p["src"], "schedule": sname, "opts": cases[ci]["opts"], "nogc": ref["steps"], "impl": r["steps"]}})
                 break
+        if same and p.get("big"):
+            # the specification's answer (length and position-weighted checksum computed by the generator on a Python list)
+            spec = [t for s in ref["steps"] for t in s["tr"] if t.startswith('["spec"')]
+            if spec and spec != ['["spec",True,True]']:
+                same = False
+                failures.append({"key": "big-spec", "what": "program %s: length / checksum of the big list after the mutations differ from the "
+                                 "specification's (computed on a Python list) under every schedule: %s" % (p["id"], spec),
+                                 "replay": {"src": p["src"], "schedule": "nogc", "impl": ref["steps"]}})
         if same:
             st["agree"] += 1
             st["tr_items"] += sum(len(s["tr"]) for s in ref["steps"])
@@ -1053,6 +1424,14 @@ def trace_table():
     return m.build()
 
 
+def trace_roots():
+    p = os.path.join(sv.ROOT, "tools", "extract_items", "trace.py")
+    spec = importlib.util.spec_from_file_location("c03_trace_items_roots", p)
+    m = importlib.util.module_from_spec(spec)
+    spec.loader.exec_module(m)
+    return m.build_roots()
+
+
 def corpus_programs():
     d = os.path.join(sv.ROOT, "corpus", "C03")
     sched, graph = [], []
@@ -1093,6 +1472,11 @@ def correspond(ctx):
         broken.append(("trace-table", "value-bearing fields not visited by the Trace impl: %s" % incomplete[:5]))
     if len(rows) < 30:
         broken.append(("trace-table", "only %d rows extracted (the translator no longer finds the Trace impls)" % len(rows)))
+    req, calls = trace_roots()
+    unvisited = [q for q in req if not any((f, r) == q and u for f, r, u in calls)]
+    if unvisited or len(req) < 8:
+        broken.append(("root-completeness", "tables holding heap values that the root-set functions do not trace on every path: %s "
+                       "(calls in source order: %s)" % (unvisited, calls)))
     csched, cgraph = corpus_programs()
     nsched = ctx.n(1500, 12000)
     ngraph = ctx.n(80, 1600)
@@ -1110,6 +1494,24 @@ def correspond(ctx):
         st["profile:" + mode] = {"programs": st2["programs"], "agree": st2["agree"], "forced": st2["forced"]}
     if st["forced"] == 0:
         broken.append(("gc-hook", "no forced collection happened: the cfg(starlark_verif) safepoint hook is inactive"))
+    # size classes: big containers collected while reachable, then mutated further and read back (a corrupted heap kills the process:
+    # short time-outs, the offending program is named by the case-by-case re-run)
+    bprogs = big_programs(ctx, ctx.n(70, 900))
+    bf, bst = sched_differential(ctx, bprogs, timeout=ctx.n(60, 200), single_timeout=40)
+    for f in bf:
+        f["what"] = "[big containers] " + f["what"]
+    failures += bf
+    ctx.log("big containers: %d programs x %d schedules, agree=%d, forced collections=%d" % (bst["programs"], len(SCHEDULES), bst["agree"], bst["forced"]))
+    # roots reachable only through host APIs (string interner, extra_value), module with and without an embedder extra_value
+    iprogs = intern_programs(ctx, ctx.n(90, 1200))
+    hf, hst = sched_differential(ctx, iprogs, timeout=ctx.n(60, 200), single_timeout=40)
+    for f in hf:
+        f["what"] = "[host API roots] " + f["what"]
+    failures += hf
+    ctx.log("host API roots (intern / extra_value): %d programs x %d schedules, agree=%d, forced collections=%d"
+            % (hst["programs"], len(SCHEDULES), hst["agree"], hst["forced"]))
+    if (bst["agree"] == 0 and not bf) or (hst["agree"] == 0 and not hf):
+        broken.append(("new-families", "no big-container / host-API program agreed across schedules (harness natives missing?)"))
     # every (profile mode, statement hook) configuration x GC schedule, followed by Module::freeze() and reading the frozen module back
     cprogs = config_programs(ctx, csched)
     cf, cst = config_differential(ctx, cprogs)
@@ -1132,7 +1534,7 @@ def correspond(ctx):
     if gst["graphs"] and gst["model_agree"] == 0 and not gf:
         broken.append(("model-run", "no graph case was evaluated by the Coq model"))
     cov = {
-        "evaluations": st["runs"] + sum(st[k]["programs"] * len(SCHEDULES) for k in st if k.startswith("profile:")) + len(gprogs) + cst["runs"],
+        "evaluations": st["runs"] + bst["runs"] + hst["runs"] + sum(st[k]["programs"] * len(SCHEDULES) for k in st if k.startswith("profile:")) + len(gprogs) + cst["runs"],
         "distinct_nontrivial": len({p["src"] for p in programs if p["src"].count("\n") >= 10}) + gst["graphs"],
         "rule": "schedule differential: distinct program texts with at least 10 lines (each run under 6 GC schedules with arena poisoning; "
                 "the configuration differential - 26 evaluator configurations x 5 schedules + freeze - is counted in evaluations only); "
@@ -1146,13 +1548,19 @@ def correspond(ctx):
         "failing_outcomes_compared": st["failing_outcomes"],
         "transcript_items_compared": st["tr_items"],
         "profiled_slices": {k: v for k, v in st.items() if k.startswith("profile:")},
+        "big_containers": {"programs": bst["programs"], "runs": bst["runs"], "agree": bst["agree"], "forced": bst["forced"],
+                           "sizes": {"big": BIG_SIZES, "small": SMALL_SIZES}, "input_distribution": merge_stats(bprogs)},
+        "host_api_roots": {"programs": hst["programs"], "runs": hst["runs"], "agree": hst["agree"], "forced": hst["forced"],
+                           "natives": ["intern", "same", "set_extra", "get_extra"], "input_distribution": merge_stats(iprogs)},
         "graph_tie": gst,
         "configuration_differential": cst,
         "configuration_input_distribution": merge_stats(cprogs),
-        "traces_validated_against_impl": st["agree"] + gst["model_agree"] + cst["program_configs_identical"],
+        "traces_validated_against_impl": st["agree"] + bst["agree"] + hst["agree"] + gst["model_agree"] + cst["program_configs_identical"],
         "trace_table_rows": len(rows),
         "trace_table_unparsed": unparsed,
         "trace_table_incomplete": incomplete,
+        "root_required": ["%s:%s" % q for q in req],
+        "root_calls": ["%s:%s:%s" % c for c in calls],
         "input_distribution": merge_stats(programs),
         "graph_input_distribution": merge_stats(gprogs),
         "corpus": {"schedule": len(csched), "graph": len(cgraph), "targeted_templates": len(TEMPLATES)},
@@ -1182,6 +1590,10 @@ def search(ctx, broken):
             more.append({"id": p["id"] + ":pad%d" % rep, "src": p["src"].replace(PAD, PAD * rep), "types": p["types"], "stats": {}})
     programs = tp + more + [gen_sched_program(ctx.rng, tier_big=(i % 3 == 0)) for i in range(SEARCH_N_SCHED)]
     failures, st = sched_differential(ctx, programs)
+    for extra in (intern_programs(ctx, 600), big_programs(ctx, 300)):      # host-API roots (broken root-completeness), size classes
+        f2, st2 = sched_differential(ctx, extra, timeout=120, single_timeout=40)
+        failures += f2
+        st["runs"] += st2["runs"]
     gf, gst, _ = graph_tie(ctx, [gen_graph_program(ctx.rng) for _ in range(SEARCH_N_GRAPH)])
     return {"failures": failures + gf, "coverage": {"evaluations": st["runs"] + gst["graphs"], "targeted_first": wanted}}
 
@@ -1200,6 +1612,12 @@ def replay(ctx, rep):
         return {"coverage": {"evaluations": st["runs"], "distinct_nontrivial": 1, "samples": [r["src"]], "configuration_differential": st},
                 "failures": f}
     p = {"id": "replay", "src": r["src"]}
+    if isinstance(r.get("opts"), dict):
+        keep = {k: r["opts"][k] for k in ("host_api", "extra_value") if k in r["opts"]}
+        if keep:
+            p["opts"] = keep
+    if '["spec"' in r["src"]:
+        p["big"] = True
     if isinstance(r.get("opts"), dict) and r["opts"].get("profile"):
         f, st = sched_differential(ctx, [p], extra_opts={"profile": r["opts"]["profile"]})
     else:
@@ -1219,12 +1637,16 @@ META = {
                   "transcript under every placement of collections; Examples: fill-before-forward diverges on a 1-cycle, an incomplete visit "
                   "loses a value. visit_complete for the real code is discharged by vm_compute on the translator's table of (type, value-bearing "
                   "fields, fields visited) for every derived/manual Trace impl, Evaluator::trace, Module::trace and the forward-before-trace-"
-                  "before-fill order of heap_copy_impl / tuple / array. The property on the real collector is decided by correspondence: "
+                  "before-fill order of heap_copy_impl / tuple / array; root completeness (every value-holding table of Module / Evaluator / "
+                  "the heap's string interner is traced unconditionally by Module::trace / Evaluator::trace) on the extracted call list. "
+                  "The property on the real collector is decided by correspondence: "
                   "generated programs under 6 GC schedules with the freed arena poisoned must give identical transcripts/outcomes without a "
                   "crash, and object graphs walked with pointer identity before/after forced collections must be equal and equal to the Coq "
                   "gc's output on the before-graph; and for every evaluator configuration (13 profile settings x statement hook on/off) "
                   "evaluation + second module + Module::freeze() + frozen exports + retained heap profile must be identical under 5 GC "
-                  "schedules, with no collection at all while a heap profile is recorded.",
+                  "schedules, with no collection at all while a heap profile is recorded; big containers (1000..5000 elements, sizes straddling "
+                  "the allocator / SmallMap thresholds) mutated after collections and read back against a Python-computed checksum; host-API "
+                  "roots (string interner, extra_value) used across collections with and without an embedder extra_value.",
     "level_note": "Trusted: Coq kernel; Heap/Copy.v as mirror of heap_copy_impl/Tracer::adjust; the syntactic translator trace.py (best effort: "
                   "field-name granularity, accessor resolution by method name within a file); hooks set_gc_every/set_poison; harness bins. "
                   "Not modelled / searched only: reads of freed memory, arena layout, pointer tagging, drop order of the old arena, values held "
